@@ -828,6 +828,9 @@ impl<'a, 'b> TryInto<AnnotationBuilder<'a>> for AnnotationCsv<'a> {
                     BuildItem::from(data_id.to_owned()),
                 );
             }
+        }
+        {
+            //the target is independent of whether the annotation has data or not
             let mut selectortypes: SmallVec<[SelectorKind; 1]> = SmallVec::new();
             let mut complex = false;
             for (i, selectortype) in self.selectortype.split(";").enumerate() {
@@ -884,13 +887,13 @@ impl<'a, 'b> TryInto<AnnotationBuilder<'a>> for AnnotationCsv<'a> {
                         "",
                     ));
                 }
-                if self.targetkey.unwrap_or(Cow::Borrowed("")).find(";").is_some() {
+                if self.targetkey.as_deref().unwrap_or("").find(";").is_some() {
                     return Err(StamError::CsvError(
                         format!("Multiple target keys were specified, but without a complex selector"),
                         "",
                     ));
                 }
-                if self.targetdata.unwrap_or(Cow::Borrowed("")).find(";").is_some() {
+                if self.targetdata.as_deref().unwrap_or("").find(";").is_some() {
                     return Err(StamError::CsvError(
                         format!("Multiple target data were specified, but without a complex selector"),
                         "",
@@ -929,7 +932,28 @@ impl<'a, 'b> TryInto<AnnotationBuilder<'a>> for AnnotationCsv<'a> {
                         let dataset = self.targetdataset;
                         SelectorBuilder::DataSetSelector(BuildItem::Id(dataset.to_string()))
                     }
-                    _ => unreachable!(),
+                    SelectorKind::DataKeySelector => {
+                        let dataset = self.targetdataset;
+                        let datakey = self.targetkey.unwrap_or(Cow::Borrowed(""));
+                        SelectorBuilder::DataKeySelector(
+                            BuildItem::Id(dataset.to_string()),
+                            BuildItem::Id(datakey.to_string()),
+                        )
+                    }
+                    SelectorKind::AnnotationDataSelector => {
+                        let dataset = self.targetdataset;
+                        let data = self.targetdata.unwrap_or(Cow::Borrowed(""));
+                        SelectorBuilder::AnnotationDataSelector(
+                            BuildItem::Id(dataset.to_string()),
+                            BuildItem::Id(data.to_string()),
+                        )
+                    }
+                    _ => {
+                        return Err(StamError::CsvError(
+                            format!("Invalid selector type for a simple selector"),
+                            "",
+                        ))
+                    }
                 }
             } else {
                 let targetresources: SmallVec<[&str; 1]> = self.targetresource.split(";").collect();
